@@ -45,7 +45,7 @@ REQUIRED_MONITORS = ['fetch_vs_model', 'read_containment', 'index_vs_model', 'se
 MIN_NONTRIVIAL = {'quick': 15000, 'thorough': 1000000}
 TIMEOUT_S = {'quick': 300, 'thorough': 3000}
 NSHARDS = 16
-N_FILES = {'quick': 640, 'thorough': 16000}           # random-history files, all shards together
+N_FILES = {'quick': 320, 'thorough': 16000}           # random-history files, all shards together
 SCOPE = {
     # L_cuts: every cut into <= 4 segments of every payload length 1..L_cuts, every pair;  L_max / cuts_per_len: every pair on
     # `cuts_per_len` random cuts (1..4 segments, random layout) for every payload length 1..L_max
@@ -294,6 +294,7 @@ class Driver:
     def history_case(self, rng, data, model, n_ops, sample=False):
         from tdv.mon.tap import TapFile
         rec = self.rec
+        rng = random.Random(rng.getrandbits(64))    # own stream: the shard stream never depends on how a history went
         tap = TapFile(data, name='<c02>')
         n = len(model.records)
         bnd = [boundaries(r) for r in model.records]
